@@ -5,7 +5,7 @@ from bounded import emission, graphprops
 PROP = "C09"
 LEVEL = "exploration"
 ENGINE = "pyvc+bounded"
-HARNESS_MODULES = ['contracts.c04_graph_plumbing']
+HARNESS_MODULES = ['contracts.c04_graph_plumbing', 'contracts.c09_emission']
 EXTRA_HARNESSES = [('C04', 'graph_add_edge')]
 MOD = "props.C09"
 instantiate = graphprops.inst_C09
@@ -13,6 +13,9 @@ descs = graphprops.descs_C09
 
 
 def bounded(tier, seed, rep):
+    from bounded import leancheck
+    leancheck.check(rep, "lean/C09Acyclic.lean", "C09.enc_iff_acyclic")
+    leancheck.leaf_characterisation_selftest(rep, tier)
     emission.run_parallel(rep, PROP, MOD, list(graphprops.with_builds(list(descs(tier)) + graphprops.deep_descs(PROP, tier))))
 
 
